@@ -3,6 +3,8 @@ package props
 import (
 	"fmt"
 	"math"
+	"sort"
+	"strings"
 	"testing"
 	"time"
 
@@ -41,6 +43,17 @@ func filterTypeWide(t *rapid.T, maxAttrs int, withRels bool, wideOneIn int) gen.
 			Type:     rapid.SampledFrom(gen.Kinds).Draw(t, "kind"),
 			Nullable: rapid.Bool().Draw(t, "nullable"),
 		})
+	}
+
+	// Two names that differ by letter case only are two names.
+	if n <= 10 && rapid.IntRange(0, 7).Draw(t, "casetwin") == 0 {
+		i := rapid.IntRange(0, n-1).Draw(t, "casetwin-of")
+		ts.Attrs = append(ts.Attrs, jsonapi.Attr{
+			Name:     strings.ToUpper(ts.Attrs[i].Name),
+			Type:     rapid.SampledFrom([]int{ts.Attrs[i].Type, ts.Attrs[i].Type, rapid.SampledFrom(gen.Kinds).Draw(t, "casetwin-kind")}).Draw(t, "casetwin-samekind"),
+			Nullable: ts.Attrs[i].Nullable,
+		})
+		sort.Slice(ts.Attrs, func(a, b int) bool { return ts.Attrs[a].Name < ts.Attrs[b].Name })
 	}
 
 	if withRels {
